@@ -106,9 +106,11 @@ def unit_rac(eng, tier="quick"):
               ("err-nul-in-output-path", "nop\nmake_raw \"a\\x00b\"\n", 1),
               ("err-unused-undefined", "limit = top - 2\nnop\nmake_raw\n", 1), ("err-unused-divzero-later", "x = y / z\nz = 0\ny = 1\nnop\nmake_raw\n", 1),
               ("err-unused-label-expr", "nop\nq = e - zz\ne:\nmake_raw\n", 1)]
-    wsel = [[], ["-Wall"], ["-Wno-implicit-operand"], ["-Wmeta-typo", "-Wno-not-implemented"]]
+    # identifiers that are a warning in one place and an ERROR in another: switching the warning off must not hide (or change) the error
+    faults += [("err-excess-hash-in-directive", ".word #5\nmake_raw\n", 1), ("warn-excess-hash-in-insn", "emt #1\nmake_raw\n", 0)]
+    wsel = [[], ["-Wall"], ["-Wno-implicit-operand"], ["-Wmeta-typo", "-Wno-not-implemented"], ["-Wno-excess-hash"], ["-Wno-all"]]
     if tier == "quick":
-        wsel = wsel[:3]
+        wsel = wsel[:3] + wsel[4:5]
     d = tempfile.mkdtemp(prefix="pyvc-cli-")
     bad = []
     n = 0
@@ -132,6 +134,8 @@ def unit_rac(eng, tier="quick"):
                     bad.append((name, fmt, ws, "no output on success", sorted(files)))
                 if "internal compiler error" in p.stderr:
                     bad.append((name, fmt, ws, "internal error path"))
+                if want and "rror" not in (p.stdout + p.stderr):
+                    bad.append((name, fmt, ws, "the run failed without showing any error diagnostic"))
                 if ref is None:
                     ref = res
                 elif res != ref:
@@ -298,6 +302,25 @@ def replay(o, tree):
             return r
     if o.get("unit", "").startswith("emit_report["):
         return replay_emit_report(tree)
+    if o.get("unit", "").startswith("FilterHandler"):
+        # an identifier that is a warning in one place and an error in another, switched off with -Wno-...: the error must still be shown
+        import subprocess
+        import tempfile
+        import shutil
+        d = tempfile.mkdtemp(prefix="pyvc-filter-")
+        bad = []
+        try:
+            for src, ws in ((".word #5\n", ["-Wno-excess-hash"]), (".byte #1\n", ["-Wno-all"]), ("ldf r6, ac0\n", ["-Wno-implicit-accumulator"]), (".word #5\n", ["-Wno-default"])):
+                for fmt in ("bare", "graphical"):
+                    open(os.path.join(d, "p.mac"), "w").write(src)
+                    p = subprocess.run(["/venv/bin/python", "-c", "import sys; sys.path.insert(0, %r); sys.argv = ['pdpy11'] + sys.argv[1:]; from pdpy11._cli import main_cli; main_cli()" % tree,
+                                        "p.mac", "--report-format", fmt, "-o", "out.bin"] + ws, cwd=d, capture_output=True, text=True, timeout=120)
+                    shown = "rror" in (p.stdout + p.stderr)
+                    if p.returncode != 0 and not shown:
+                        bad.append([src, ws, fmt, "exit %d without any error diagnostic" % p.returncode])
+        finally:
+            shutil.rmtree(d, ignore_errors=True)
+        return dict(jobs=None, experiment="real CLI with the identifier of an error switched off by -Wno-...", observed=bad[:3], reproduced=bool(bad))
     if (o.get("cfg") or {}).get("kind") == "emit_files":
         return cli_c.replay_emit_files(o, tree)
     if o.get("unit", "").startswith("main_cli["):
